@@ -204,6 +204,7 @@ func (ex *Exec) builtin(fr *Frame, st *State, b *ssa.Builtin, cc *ssa.CallCommon
 		ex.checkCallSites(fr, st, "append", args, pos)
 		set(ex.appendOp(fr, st, cc, args, pos))
 	case "delete":
+		ex.checkCallSites(fr, st, "delete", args, pos)
 		mt := args[0].T.Underlying().(*types.Map)
 		_ = mt
 		ex.mapSet(st, args[0].T, args[0].L[0], args[1], Val{}, "false")
